@@ -582,6 +582,18 @@ impl Write for SimFile {
         Ok(n)
     }
 
+    /// Vectored writes are scheduled like plain ones over the concatenation of the buffers, so a
+    /// single call may stop anywhere, including inside the first buffer or across a boundary.
+    fn write_vectored(&mut self, bufs: &[io::IoSlice<'_>]) -> io::Result<usize> {
+        let total: usize = bufs.iter().map(|b| b.len()).sum();
+        let mut joined = Vec::with_capacity(total);
+        for b in bufs {
+            joined.extend_from_slice(b);
+        }
+        self.env.0.borrow_mut().fx.inc("fired.vectored_write_call");
+        self.write(&joined)
+    }
+
     fn flush(&mut self) -> io::Result<()> {
         let env = self.env.clone();
         let mut e = env.0.borrow_mut();
@@ -666,13 +678,6 @@ impl grenad::ChunkCreator for SimFs {
     fn create(&self) -> Result<SimFile, SimCreateError> {
         {
             let mut e = self.env.0.borrow_mut();
-            e.creates += 1;
-            let w = e.window_volume;
-            e.create_windows.push(w);
-            if w > e.max_window_volume {
-                e.max_window_volume = w;
-            }
-            e.window_volume = 0;
             if let Some(f) = e.tick(IoKind::Create, u32::MAX, None) {
                 let kind = io_kind_for(f.err / 4, IoKind::Read);
                 return Err(match f.err % 4 {
@@ -682,6 +687,16 @@ impl grenad::ChunkCreator for SimFs {
                     _ => SimCreateError::InvalidFormat,
                 });
             }
+        }
+        {
+            let mut e = self.env.0.borrow_mut();
+            e.creates += 1;
+            let w = e.window_volume;
+            e.create_windows.push(w);
+            if w > e.max_window_volume {
+                e.max_window_volume = w;
+            }
+            e.window_volume = 0;
         }
         let f = SimFile::create(&self.env, Role::Chunk, Vec::new());
         self.env.0.borrow_mut().chunk_datas.push(f.data_rc());
